@@ -406,6 +406,22 @@ class Interp:
             if op == "==" and isinstance(a, tuple) and a[0] == "call" and a[1] == "len" \
                     and b[0] == "const":
                 env[("@len", a[2])] = b[1]
+        # `x is None` / `x is not None` narrows a joined value
+        if isinstance(cond, tuple) and cond and cond[0] == "cmp" \
+                and cond[1] in ("is", "isnot") and cond[3] == NONE:
+            isnone = (cond[1] == "is") == truth
+            v = cond[2]
+            for k in list(env):
+                if isinstance(k, str) and not k.startswith("@") and env[k] == v:
+                    if isnone:
+                        env[k] = NONE
+                    elif isinstance(v, tuple) and v and v[0] == "phi":
+                        rest = [x for x in v[1:] if x != NONE]
+                        env[k] = phi(*rest) if rest else v
+        if isinstance(cond, tuple) and cond and cond[0] == "and" and truth:
+            for c in cond[1:]:
+                self._refine(c, True, env)
+            return
         env.setdefault("@conds", [])
         env["@conds"] = list(env["@conds"]) + [(cond, truth)]
 
@@ -1007,12 +1023,10 @@ class Interp:
         if sym == "+" and a[0] in ("tmpl", "const") and b[0] in ("tmpl", "const") \
                 and isinstance(a[1], str) and isinstance(b[1], str):
             return ("tmpl", a[1] + b[1])
-        if sym == "+" and (a[0] == "tmpl" or b[0] == "tmpl"):
-            pa = a[1] if a[0] in ("tmpl", "const") and isinstance(a[1], str) else \
-                "{" + (a[1] if a[0] in ("param", "free") else "?") + "}"
-            pb = b[1] if b[0] in ("tmpl", "const") and isinstance(b[1], str) else \
-                "{" + (b[1] if b[0] in ("param", "free") else "?") + "}"
-            return ("tmpl", pa + pb)
+        if sym == "+" and (a[0] == "tmpl" or b[0] == "tmpl"
+                           or (b[0] == "const" and isinstance(b[1], str) and a[0] != "const")
+                           or (a[0] == "const" and isinstance(a[1], str) and b[0] != "const")):
+            return ("tmpl", _piece(a) + _piece(b))
         if sym == "+" and a[0] in ("tuple", "list") and b[0] in ("tuple", "list"):
             return (a[0],) + tuple(a[1:]) + tuple(b[1:])
         if sym == "+" and a[0] == "nt" and b[0] in ("tuple", "list"):
@@ -1273,6 +1287,10 @@ class Interp:
         return ("call", repr(f), *args)
 
     def _call_closure(self, clo, args, kwargs):
+        if clo.fi is not None and getattr(clo.fi, "fq", None) in self.opaque \
+                and clo.fi.node is clo.node:
+            self.inst += 1
+            return ("sample", clo.fi.fq, self.inst, tuple(args))
         if self.depth >= self.max_depth:
             return top("closure depth")
         node = clo.node
@@ -1554,16 +1572,7 @@ class Interp:
         if name == "re.compile" and a:
             return ("regex", a[0], a[1] if len(a) > 1 else kwargs.get("flags", const(0)))
         if name in ("os.path.join",):
-            parts = []
-            for x in a:
-                if x[0] in ("const", "tmpl") and isinstance(x[1], str):
-                    parts.append(x[1])
-                elif x[0] in ("param", "free"):
-                    parts.append("{" + x[1] + "}")
-                elif x[0] == "elem":
-                    parts.append("{elem}")
-                else:
-                    parts.append("{?}")
+            parts = [_piece(x) for x in a]
             return ("tmpl", "/".join(p.strip("/") if i else p.rstrip("/")
                                      for i, p in enumerate(parts)))
         if name == "isinstance":
@@ -1673,6 +1682,24 @@ class Interp:
         if attr == "group":
             return ("call", "group", recv, *a)
         return ("mcall", attr, recv, *a)
+
+
+def _piece(x):
+    """Text of one piece of a path template."""
+    if not isinstance(x, tuple) or not x:
+        return "{?}"
+    if x[0] in ("const", "tmpl") and isinstance(x[1], str):
+        return x[1]
+    if x[0] in ("param", "free"):
+        return "{" + str(x[1]) + "}"
+    if x[0] == "sym":
+        return "{" + x[1] + "}"
+    if x[0] == "elem":
+        return "{elem}"
+    if x[0] in ("phi", "gphi", "when"):
+        alts = [_piece(a) for a in alternatives(x)]
+        return alts[0] if len(set(alts)) == 1 else "{?}"
+    return "{?}"
 
 
 def _is_container(v):
